@@ -37,6 +37,8 @@ def replay_search_failure(ck, B, h, N):
     z, m = decode_zone(vecs, N)
     if 'leap' not in h.name:
         z.leaps = []   # these harnesses pass an empty leap table whatever the generator produced
+    if 'norule' in h.name:
+        z.rule = None  # and these a constant `None` rule
     c = m.get('c', 0)
     nat = common.Native()
     why = zoneref.judge_search(nat, z, c)
